@@ -71,8 +71,8 @@ def r1_cutoff(chk):
             if ub is None:
                 chk.fail("C19.R1", key, f.where(q), "the KD-tree query has no distance_upper_bound: the cut-off is not applied")
             else:
-                chk.decide(_derives_from(f.node, ub, "max_dist", asg), "C19.R1", key, f.where(q), f"distance_upper_bound={norm(ub)}",
-                           f"the KD-tree bound is `{norm(ub)}`, not the max_dist parameter: the caller's cut-off is ignored")
+                chk.decide(_is_param(f.node, ub, "max_dist", q), "C19.R1", key, f.where(q), f"distance_upper_bound={norm(ub)}",
+                           f"the KD-tree bound is `{norm(ub)}`, not the max_dist parameter itself: the caller's cut-off is ignored or widened (points farther than max_dist are kept)")
             if fname == "nearest_atom_index":
                 # the function promises THE nearest atom within max_dist: the tree search must be exact (no eps slack, Euclidean metric, k = 1)
                 ep, pk, kk = kwarg(q, "eps"), kwarg(q, "p"), kwarg(q, "k")
@@ -94,12 +94,32 @@ def r1_cutoff(chk):
                 dd_names.add(norm(s.targets[0].elts[0]))
         cmps = [c for c in walk_no_nested(f.node) if isinstance(c, ast.Compare) and isinstance(c.left, ast.Name) and c.left.id in dd_names]
         chk.require(cmps, f"{fname}: mask comparison not found")
+        # every query's distances are masked: a branch that queries but never compares hands out the tree's "no neighbour" index
+        # (= number of atoms) instead of -1 for points beyond the cut-off
+        def _branch(x):
+            return "ensemble" if any(isinstance(l, ast.For) and any(y is x for y in ast.walk(l)) for l in walk_no_nested(f.node)) else ("single" if fname == "nearest_atom_index" else "all")
+
+        for q in qs:
+            bq = _branch(q)
+            chk.decide(any(_branch(c) == bq for c in cmps), "C19.R1", f"{f.key}:{bq}:result-is-masked", f.where(q), "the distances of this query are compared with max_dist",
+                       f"the {bq} branch queries the tree but never compares the returned distances with max_dist: points beyond the cut-off get the tree's filler index "
+                       "(the number of atoms) instead of -1")
         for c in cmps:
             branch = "ensemble" if any(isinstance(l, ast.For) and any(x is c for x in ast.walk(l)) for l in walk_no_nested(f.node)) else ("single" if fname == "nearest_atom_index" else "all")
             rhs = c.comparators[0]
-            ok = _derives_from(f.node, rhs, "max_dist", asg) and isinstance(c.ops[0], (ast.LtE, ast.Lt))
+            ok = _is_param(f.node, rhs, "max_dist", c) and isinstance(c.ops[0], (ast.LtE, ast.Lt))
             chk.decide(ok, "C19.R1", f"{f.key}:{branch}:mask-from-max_dist", f.where(c), f"{norm(c)}",
                        f"the mask is `{norm(c)}`: it does not compare the distance with the max_dist parameter")
+
+
+def _is_param(fn, e, name, at):
+    """`e` is the parameter itself (through naming locals, `float(..)`), not an expression that merely mentions it"""
+    from ..canon import Env
+
+    v = Env(fn).expand(e, keep={name}, at=at)
+    while isinstance(v, ast.Call) and call_name(v) in ("float", "np.float64", "np.float32") and len(v.args) == 1:
+        v = v.args[0]
+    return norm(v) == name
 
 
 def _pow2(e, asg, depth=0):
